@@ -39,6 +39,7 @@ func runC12(p *core.Prog, r *core.Report) {
 	// a transient fault on an upload is absorbed by sending the body again: the copy hands over a source that can rewind (shared with C05.R6)
 	c05R6(p, r, "C12.R9")
 	transportRetryRule(p, r, "C12.R10")
+	c12R11(p, r)
 }
 
 // c12R8: a body that ends early is recognised, and resumed with a Range request, only when the
@@ -1799,5 +1800,89 @@ func transportRetryRule(p *core.Prog, r *core.Report, rule string) {
 		}
 		r.Check(bad == "", rule, p.FuncName(d.fn), label, p.Pos(d.call.Pos()),
 			"the host is dropped at "+bad+" when the round trip itself failed: requests that may only go to the registry (every upload request) fail on the first connection reset instead of being retried after the backoff")
+	}
+}
+
+// c12R11: a probe that is sent without retries has a fallback. A request literal with IgnoreErr
+// (reghttp does not retry it and drops the host on its first failure) is only sound while whatever
+// goes wrong with it — a refusal as well as a connection reset — leads on to the other requests of
+// the function. A failure return between the probe and its fallback makes one transient fault, far
+// below the retry limit, fail the whole operation.
+func c12R11(p *core.Prog, r *core.Report) {
+	const rule = "C12.R11"
+	r.Rule(rule, "a single-shot probe falls back on every failure: in scheme/reg, where a function sends a request whose literal sets IgnoreErr and goes on to send other requests, no return is reachable from the probe's failure edge before one of those requests (the probe is never retried, so a return there turns one connection reset into a failed operation)", 1)
+	doers := reachers(p, httpDoers(p))
+	n := 0
+	lab := map[*ssa.Function]labeler{}
+	for _, lit := range reqLiterals(p) {
+		if pk := core.FuncPkg(lit.Fn); pk == nil || pk.Path() != modPath("scheme/reg") {
+			continue
+		}
+		if b, ok := core.ConstBool(lit.Fields["IgnoreErr"]); !ok || !b {
+			continue
+		}
+		fn := lit.Fn
+		// the Do this literal is handed to
+		var probe *ssa.Call
+		core.Calls(fn, func(c ssa.CallInstruction) {
+			call, isCall := c.(*ssa.Call)
+			if !isCall || probe != nil {
+				return
+			}
+			for _, a := range call.Call.Args {
+				if a == ssa.Value(lit.Alloc) {
+					if g := core.CalleeFn(c); g != nil && doers[g] {
+						probe = call
+					}
+				}
+			}
+		})
+		if probe == nil {
+			continue
+		}
+		isRequest := func(in ssa.Instruction) bool {
+			c, ok := in.(ssa.CallInstruction)
+			if !ok || in == ssa.Instruction(probe) {
+				return false
+			}
+			if g := core.CalleeFn(c); g != nil && doers[g] {
+				return true
+			}
+			if c.Common().IsInvoke() {
+				for _, impl := range p.Implementations(c.Common().Method) {
+					if doers[impl] {
+						return true
+					}
+				}
+			}
+			return false
+		}
+		// a fallback exists: some other request is reachable after the probe
+		hasFallback := false
+		for in := range (core.Reach{}).FromInstr(probe) {
+			if isRequest(in) {
+				hasFallback = true
+			}
+		}
+		if !hasFallback {
+			continue
+		}
+		n++
+		bad := ""
+		for _, e := range errEdgesOf(fn, probe) {
+			for in := range (core.Reach{Stop: isRequest}).FromEdge(e[0], e[1]) {
+				if ret, isRet := in.(*ssa.Return); isRet {
+					bad = p.Pos(ret.Pos())
+				}
+			}
+		}
+		if lab[fn] == nil {
+			lab[fn] = labeler{}
+		}
+		r.Check(bad == "", rule, p.FuncName(fn), lab[fn].next("probe sent with IgnoreErr"), p.Pos(probe.Pos()),
+			"the return at "+bad+" is reached from the probe's failure edge before any of the requests that follow it: the probe is sent once, so a single connection reset or timeout fails the operation although the fallback would have done the work")
+	}
+	if n == 0 {
+		r.Held(rule, "scheme/reg", "probe sent with IgnoreErr", "", "no function sends an IgnoreErr request and other requests after it")
 	}
 }
